@@ -6,6 +6,7 @@ import (
 	"fmt"
 	"runtime"
 	"sort"
+	"strings"
 	"sync"
 	"time"
 
@@ -43,6 +44,7 @@ const (
 	evMainReturn = "main-return"      // pipeline.Execute returned
 	evMainPanic  = "main-panic"       // pipeline.Execute panicked (must never happen)
 	evAbandoned  = "runner-abandoned" // harness: the pool's counters say the stage's task was consumed, its handlers were never called
+	evCancel     = "ctx-cancel"       // harness: the context of the pooled stages was cancelled
 	evLost       = "runner-lost"      // harness: an async stage was handed to its pool, the pool drained a later sentinel task, the stage never ran
 )
 
@@ -96,7 +98,10 @@ type runOpts struct {
 	RandSeed   int64
 	UseRand    bool
 	MaxWorkers int // per pool (free mode); serial mode always uses a size that cannot starve a parked stage
-	Slot       string
+	// CancelAt >= 0: the context shared by the pooled stages is cancelled before the CancelAt-th gate is opened
+	// (serial mode) or when the trace has CancelAt events (free mode); -1: never.
+	CancelAt int
+	Slot     string
 }
 
 // caseRun is the state of one executed case.
@@ -104,18 +109,22 @@ type caseRun struct {
 	spec *treeSpec
 	opts runOpts
 
-	mu      sync.Mutex
-	ev      []event
-	notify  chan struct{}
-	started int // runners started (main goroutine + async stages handed to a pool)
-	done    int // runners done
-	parked  map[int]chan struct{}
-	parkedG map[int]int64 // goroutine of each parked operator
-	gOwner  map[int64]int // pool goroutine -> async stage whose task runs on it (-1: the goroutine that called pipeline.Execute)
-	mainEnd bool
-	runDone map[int]bool // async stage id -> runner counted as done
-	hstack  map[int64][]int
-	nCb     int
+	mu           sync.Mutex
+	ev           []event
+	notify       chan struct{}
+	started      int // runners started (main goroutine + async stages handed to a pool)
+	done         int // runners done
+	parked       map[int]chan struct{}
+	parkedG      map[int]int64 // goroutine of each parked operator
+	gOwner       map[int64]int // pool goroutine -> async stage whose task runs on it (-1: the goroutine that called pipeline.Execute)
+	mainEnd      bool
+	ctx          context.Context
+	cancel       context.CancelFunc
+	cancelled    bool
+	poolsStopped bool
+	runDone      map[int]bool // async stage id -> runner counted as done
+	hstack       map[int64][]int
+	nCb          int
 
 	pools   []concurrent.Pool
 	stats   []*metrics.ConcurrentStatistics
@@ -125,7 +134,6 @@ type caseRun struct {
 	alts    []int // number of alternatives at each decision point
 	taken   []int // choices actually taken
 	delayNs map[int]int64
-	stalls  []string
 	stages  map[int]*hStage
 }
 
@@ -144,6 +152,11 @@ func (c *caseRun) recLocked(kind string, st, op int, err error, info string, g i
 		if h := c.stages[st]; h != nil && h.spec.Async {
 			c.gOwner[g] = st
 		}
+	}
+	if c.opts.Mode == "free" && c.opts.CancelAt >= 0 && !c.cancelled && len(c.ev) >= c.opts.CancelAt {
+		c.cancelled = true
+		c.ev = append(c.ev, event{Seq: len(c.ev), Kind: evCancel, Stage: -1, NoErr: true})
+		c.cancel()
 	}
 	e := event{Seq: len(c.ev), Kind: kind, Stage: st, Op: op, G: g, Info: info}
 	if err != nil {
@@ -340,8 +353,6 @@ func (c *caseRun) depthOf(id int) int {
 	return d
 }
 
-var bgCtx = context.Background()
-
 func (c *caseRun) build(s *stageSpec, depth int) stage.Stage {
 	var plan stage.PlanNode
 	serial := c.opts.Mode == "serial"
@@ -377,7 +388,7 @@ func (c *caseRun) build(s *stageSpec, depth int) stage.Stage {
 		plan = root
 	}
 	var pool concurrent.Pool
-	ctx := bgCtx
+	ctx := c.ctx
 	if s.Async {
 		pool = c.pools[depth%len(c.pools)]
 	} else if s.NilCtx {
@@ -411,7 +422,6 @@ func (c *caseRun) build(s *stageSpec, depth int) stage.Stage {
 
 const (
 	caseWatchdog = 40 * time.Second
-	hangGrace    = 40 * time.Millisecond
 )
 
 // caseOutcome is what the driver hands to the oracle.
@@ -420,34 +430,44 @@ type caseOutcome struct {
 	Mode     string                     `json:"mode"`
 	Workers  int                        `json:"max_workers_per_pool"`
 	RandSeed int64                      `json:"schedule_seed,omitempty"`
+	CancelAt int                        `json:"cancel_at"`
 	Taken    []int                      `json:"choices_taken,omitempty"`
 	Alts     []int                      `json:"alternatives,omitempty"`
 	Trace    []event                    `json:"-"`
 	TraceStr []string                   `json:"trace"`
 	Stats    []*commonmodels.StageStats `json:"-"`
-	// Quiescent: every runner finished (or was proven lost), every started operator returned and
-	// the pools drained a sentinel task submitted after all of that.
+	// Quiescent: every runner finished (or was proven rejected/abandoned by its pool) and every started operator returned.
 	Quiescent bool     `json:"quiescent"`
 	PoolIdle  bool     `json:"pool_idle"`
 	PoolInfo  []string `json:"pool_info,omitempty"`
 	Watchdog  string   `json:"watchdog,omitempty"` // harness watchdog fired: the case is inconclusive
 	Lost      []int    `json:"lost,omitempty"`
 	Abandoned []int    `json:"abandoned,omitempty"`
+	Retry     bool     `json:"-"`
 	NAsync    int      `json:"-"`
-}
-
-var statSeq struct {
-	sync.Mutex
-	n int
 }
 
 // runCase executes one tree through the real pipeline and returns the trace.
 func runCase(spec *treeSpec, opts runOpts) *caseOutcome {
+	var out *caseOutcome
+	for attempt := 0; attempt < 4; attempt++ {
+		out = runCaseOnce(spec, opts)
+		if !out.Retry {
+			return out
+		}
+	}
+	out.Watchdog = "a stage handler arrived while the pools were being stopped as a barrier, four times in a row"
+	return out
+}
+
+func runCaseOnce(spec *treeSpec, opts runOpts) *caseOutcome {
 	c := &caseRun{
 		spec: spec, opts: opts, notify: make(chan struct{}, 1),
 		parked: map[int]chan struct{}{}, parkedG: map[int]int64{}, gOwner: map[int64]int{}, runDone: map[int]bool{}, hstack: map[int64][]int{},
 		delayNs: map[int]int64{}, stages: map[int]*hStage{},
 	}
+	c.ctx, c.cancel = context.WithCancel(context.Background())
+	defer c.cancel()
 	nPools := 4
 	maxWorkers := opts.MaxWorkers
 	if opts.Mode == "serial" || maxWorkers <= 0 {
@@ -483,7 +503,7 @@ func runCase(spec *treeSpec, opts runOpts) *caseOutcome {
 			}
 		}
 	}
-	out := &caseOutcome{Spec: spec, Mode: opts.Mode, Workers: maxWorkers, RandSeed: opts.RandSeed}
+	out := &caseOutcome{Spec: spec, Mode: opts.Mode, Workers: maxWorkers, RandSeed: opts.RandSeed, CancelAt: opts.CancelAt}
 
 	var pipeline query.Pipeline
 	pipeline = query.NewExecutePipeline(trackerpkg.NewStageTracker(nil), func(err error) {
@@ -522,9 +542,47 @@ func runCase(spec *treeSpec, opts runOpts) *caseOutcome {
 	}()
 
 	// driver
+	releaseNext := func() {
+		// choose the stage whose gate opens next
+		c.mu.Lock()
+		if opts.CancelAt >= 0 && !c.cancelled && len(c.taken) >= opts.CancelAt {
+			c.cancelled = true
+			c.recLocked(evCancel, -1, 0, nil, "", 0)
+			c.cancel()
+		}
+		ids := make([]int, 0, len(c.parked))
+		for id := range c.parked {
+			ids = append(ids, id)
+		}
+		sort.Ints(ids)
+		k := 0
+		step := len(c.taken)
+		switch {
+		case step < len(opts.Choices):
+			k = opts.Choices[step]
+			if k >= len(ids) {
+				k = len(ids) - 1
+			}
+		case rnd != nil:
+			k = rnd.intn(len(ids))
+		}
+		c.alts = append(c.alts, len(ids))
+		c.taken = append(c.taken, k)
+		id := ids[k]
+		ch := c.parked[id]
+		delete(c.parked, id)
+		delete(c.parkedG, id)
+		c.recLocked(evOpRelease, id, 0, nil, "", 0)
+		c.mu.Unlock()
+		close(ch)
+	}
+	traceLen := func() int {
+		c.mu.Lock()
+		defer c.mu.Unlock()
+		return len(c.ev)
+	}
 	lastLen := -1
 	stallSince := time.Now()
-	frozenTicks := 0
 	for {
 		c.mu.Lock()
 		running := c.started - c.done - len(c.parked)
@@ -535,33 +593,7 @@ func runCase(spec *treeSpec, opts runOpts) *caseOutcome {
 			break
 		}
 		if running == 0 && nParked > 0 {
-			// settled: choose the stage whose gate opens next
-			c.mu.Lock()
-			ids := make([]int, 0, len(c.parked))
-			for id := range c.parked {
-				ids = append(ids, id)
-			}
-			sort.Ints(ids)
-			k := 0
-			step := len(c.taken)
-			switch {
-			case step < len(opts.Choices):
-				k = opts.Choices[step]
-				if k >= len(ids) {
-					k = len(ids) - 1
-				}
-			case rnd != nil:
-				k = rnd.intn(len(ids))
-			}
-			c.alts = append(c.alts, len(ids))
-			c.taken = append(c.taken, k)
-			id := ids[k]
-			ch := c.parked[id]
-			delete(c.parked, id)
-			delete(c.parkedG, id)
-			c.recLocked(evOpRelease, id, 0, nil, "", 0)
-			c.mu.Unlock()
-			close(ch)
+			releaseNext() // settled
 			continue
 		}
 		// somebody is running: wait for the next event.  No verdict depends on how long this takes: a case that makes
@@ -580,19 +612,28 @@ func runCase(spec *treeSpec, opts runOpts) *caseOutcome {
 		if c.markRejectedLost(out) {
 			continue
 		}
-		// Frozen: the caller's goroutine is back (or parked), and by the pools' own counters every task handed to them
-		// was consumed except the ones whose worker waits at a gate.  Then no code of this case is running, and a pooled
-		// stage that is neither done nor parked was finished by its pool without a word to its handlers.  The pool
-		// counts a panicking task before it calls the panic handler, so the condition must survive a few ticks.
-		if c.frozen() && curLen == lastLen {
-			frozenTicks++
-			if frozenTicks >= 3 {
-				c.abandonDead(out)
-				frozenTicks = 0
+		// Frozen: the caller's goroutine is back (or parked), no stage handler is active, and by the pools' own counters
+		// every task handed to them was consumed except the ones whose worker waits at a gate.  A pooled stage that is
+		// neither done nor parked then was (or is being) given up by its pool without a word to its handlers.
+		if c.frozen() && traceLen() == curLen {
+			if nParked > 0 {
+				releaseNext() // go on with the schedule; who is dead is decided at the end
 				continue
 			}
-		} else {
-			frozenTicks = 0
+			// The pool counts a panicking task before it calls the task's panic handler, so "frozen" can be reached a
+			// moment too early.  Pool.Stop() is the barrier: it returns only when every worker is back in the ready
+			// queue, i.e. after every handler call the pool is ever going to make.
+			before := traceLen()
+			if !c.stopPools() {
+				out.Watchdog = "pools do not stop"
+				break
+			}
+			if traceLen() != before {
+				out.Retry = true // a handler did arrive; what it submitted went to stopped pools: run the case again
+				break
+			}
+			c.abandonDead(out)
+			continue
 		}
 		if time.Since(stallSince) > caseWatchdog {
 			c.mu.Lock()
@@ -602,28 +643,25 @@ func runCase(spec *treeSpec, opts runOpts) *caseOutcome {
 			break
 		}
 	}
-	if out.Watchdog == "" {
+	if out.Watchdog == "" && !out.Retry {
 		c.mu.Lock()
 		ncb := c.nCb
 		c.mu.Unlock()
 		out.Quiescent = true
 		if ncb == 0 {
 			// Logical hang condition reached: every runner returned (every pooled stage's handler ran to its end, the
-			// caller's goroutine is back from pipeline.Execute), every operator ended.  Now the pools' own counters must
-			// agree that every task handed to them was consumed; the grace period only comes after that.
+			// caller's goroutine is back from pipeline.Execute), every operator ended.  The pools' own counters must agree
+			// that every task handed to them was consumed, and Pool.Stop() (all workers back in the ready queue) is the
+			// final barrier; the trace must not move in between.
+			before := traceLen()
 			out.PoolIdle = c.poolCountersIdle(out)
-			if !out.PoolIdle {
+			switch {
+			case !out.PoolIdle:
 				out.Watchdog = "all runners are done but the pools' task counters do not become idle"
-			} else {
-				c.mu.Lock()
-				before := len(c.ev)
-				c.mu.Unlock()
-				time.Sleep(hangGrace)
-				c.mu.Lock()
-				if len(c.ev) != before {
-					out.Watchdog = "trace moved after quiescence"
-				}
-				c.mu.Unlock()
+			case !c.stopPools():
+				out.Watchdog = "pools do not stop"
+			case traceLen() != before:
+				out.Watchdog = "trace moved after quiescence"
 			}
 		} else {
 			out.PoolIdle = true
@@ -678,7 +716,11 @@ func acquireStats() (*metrics.ConcurrentStatistics, string) {
 	return metrics.NewConcurrentStatistics(name, linmetric.BrokerRegistry), name
 }
 
-func (c *caseRun) stopPools() {
+func (c *caseRun) stopPools() bool {
+	if c.poolsStopped {
+		return true
+	}
+	c.poolsStopped = true
 	var wg sync.WaitGroup
 	for i, p := range c.pools {
 		wg.Add(1)
@@ -694,8 +736,10 @@ func (c *caseRun) stopPools() {
 	go func() { wg.Wait(); close(done) }()
 	select {
 	case <-done:
-	case <-time.After(20 * time.Second):
+		return true
+	case <-time.After(30 * time.Second):
 		// a pool that does not stop keeps its statistics object for itself
+		return false
 	}
 }
 
@@ -739,6 +783,15 @@ func (c *caseRun) frozen() bool {
 	}
 	if !c.mainEnd && !mainParked {
 		return false
+	}
+	parkedGs := map[int64]bool{}
+	for _, g := range c.parkedG {
+		parkedGs[g] = true
+	}
+	for g, st := range c.hstack {
+		if len(st) > 0 && !parkedGs[g] {
+			return false // a completion/error handler is executing
+		}
 	}
 	live := 0
 	for i, st := range c.stats {
@@ -788,8 +841,32 @@ func (c *caseRun) markRejectedLost(out *caseOutcome) bool {
 	if rejected == 0 {
 		return false
 	}
+	// rejections the pool/stage reported through the stage's error handler are not lost stages; while a pooled
+	// stage is still inside Execute (Submit) such a report may be on its way
+	opStarted := map[int]bool{}
+	reported := map[int]bool{}
+	openAsyncExec := 0
+	for _, e := range c.ev {
+		switch e.Kind {
+		case evOpStart:
+			opStarted[e.Stage] = true
+		case evExecEnter:
+			if e.Info == "async" {
+				openAsyncExec++
+			}
+		case evExecReturn, evExecUnwind:
+			if e.Info == "async" {
+				openAsyncExec--
+			}
+		case evHEnter:
+			if e.Info == "err" && !opStarted[e.Stage] && strings.Contains(e.Err, "context") {
+				reported[e.Stage] = true
+			}
+		}
+	}
+	unexplained := rejected - len(reported) - len(out.Lost)
 	lost := c.lostRunnersLocked()
-	if len(lost) == 0 || len(lost) != rejected-len(out.Lost) {
+	if unexplained <= 0 || openAsyncExec != 0 || len(lost) != unexplained {
 		return false
 	}
 	for _, id := range lost {
